@@ -226,13 +226,11 @@ Section LsexpInd.
   Variable P : lsexp -> Prop.
   Hypothesis HLit : forall l, P (LLit l).
   Hypothesis HAtom : forall a, P (LAtom a).
-  Hypothesis HRaw : forall m, P (LRawStr m).
   Hypothesis HList : forall items cw, Forall (fun p => P (snd p)) items -> P (LList items cw).
   Fixpoint lsexp_ind2 (l : lsexp) : P l :=
     match l with
     | LLit x => HLit x
     | LAtom a => HAtom a
-    | LRawStr m => HRaw m
     | LList items cw =>
         HList items cw
           ((fix go (items : list (str * lsexp)) : Forall (fun p => P (snd p)) items :=
@@ -365,7 +363,6 @@ Section WithOracle.
     match l with
     | LLit x => wf_lit x
     | LAtom a => wf_atom a
-    | LRawStr m => no_special m
     | LList items cw =>
         ws_str cw /\
         (fix go (first : bool) (items : list (str * lsexp)) : Prop :=
@@ -420,20 +417,20 @@ Section WithOracle.
   (** the text of a well-formed layout starts with a non-blank, non-comment character *)
   Lemma text_nonempty : forall l, wf_l l -> (ntok l <= List.length (text l))%nat.
   Proof.
-    induction l using lsexp_ind2; intro H.
-    - simpl in H. destruct l as [z|f|s|b|]; try contradiction.
+    induction l as [l|a|items cw IHitems] using lsexp_ind2; intro Hwf.
+    - simpl in Hwf. destruct l as [z|f|s|b|]; try contradiction.
       + pose proof (print_int_nonempty z). simpl. destruct (print_int z); [congruence|simpl; lia].
-      + destruct f as [| | |x]; simpl; try lia.
-        pose proof (print_float_nonempty x H). simpl in H0.
-        destruct (match parse_i64 (fmt_f64 x) with Some _ => fmt_f64 x ++ k_dot0 | None => fmt_f64 x end); [congruence|simpl; lia].
+      + destruct f as [| | |x]; try (simpl; lia).
+        pose proof (print_float_nonempty x Hwf) as Hne.
+        change (text (LLit (LFloat (FFin x)))) with (print_float fmt_f64 (FFin x)).
+        destruct (print_float fmt_f64 (FFin x)); [congruence|simpl; lia].
       + simpl. lia.
       + destruct b; simpl; lia.
-    - destruct H as ((Hne & _) & _). simpl. destruct a; [congruence|simpl; lia].
-    - simpl. lia.
-    - rewrite ntok_list, text_list. apply wf_l_list in H0. destruct H0 as [_ Hi].
+    - destruct Hwf as ((Hne & _) & _). simpl. destruct a; [congruence|simpl; lia].
+    - rewrite ntok_list, text_list. apply wf_l_list in Hwf. destruct Hwf as [_ Hi].
       simpl. rewrite app_length, app_length. simpl.
       assert (items_ntok items <= List.length (items_text fmt_f64 items))%nat; [|lia].
-      revert Hi. generalize true. induction H as [|[w x] tl Hx Htl IH]; intros b Hi; simpl; [lia|].
+      revert Hi. generalize true. induction IHitems as [|[w x] tl Hx Htl IH]; intros b Hi; simpl; [lia|].
       simpl in Hi. destruct Hi as (_ & _ & Hwx & Htl').
       rewrite !app_length. specialize (IH _ Htl'). specialize (Hx Hwx). simpl in Hx. lia.
   Qed.
@@ -443,17 +440,16 @@ Section WithOracle.
   Lemma read_layout : forall l, wf_l l -> forall fuel stack rest, follow_ok rest ->
     read_loop (ntok l + fuel) stack (text l ++ rest) = push_k fuel (strip l) stack (skip_ws false rest).
   Proof.
-    induction l using lsexp_ind2; intros Hwf fuel stack rest Hr.
+    induction l as [l|a|items cw H] using lsexp_ind2; intros Hwf fuel stack rest Hr.
     - (* literal *)
       destruct l as [z|f|s|b|].
       + destruct (lit_other (LInt z) Hwf) as [Ht Hc]; [discriminate|]. apply read_other; assumption.
       + destruct (lit_other (LFloat f) Hwf) as [Ht Hc]; [discriminate|]. apply read_other; assumption.
-      + simpl ntok. simpl text. simpl strip. rewrite <- app_assoc. simpl. apply read_string.
+      + change (text (LLit (LStr s)) ++ rest) with (c_quote :: (escape s ++ [c_quote]) ++ rest).
+        rewrite <- app_assoc. apply (read_string s fuel stack rest).
       + destruct (lit_other (LBool b) Hwf) as [Ht Hc]; [discriminate|]. apply read_other; assumption.
       + contradiction.
     - destruct Hwf as [Ht Hc]. apply read_other; assumption.
-    - simpl in Hwf. simpl ntok. simpl text. simpl strip. rewrite <- app_assoc. simpl.
-      rewrite <- (escape_no_special m Hwf) at 1. apply read_string.
     - apply wf_l_list in Hwf. destruct Hwf as [Hcw Hitems].
       rewrite ntok_list, text_list.
       change ((c_lp :: items_text fmt_f64 items ++ cw ++ [c_rp]) ++ rest)
@@ -535,30 +531,23 @@ Section WithOracle.
 
   Lemma canon_ok : forall s, wf_sexp s -> wf_l (canon s) /\ strip (canon s) = s.
   Proof.
-    induction s using sexp_ind2; intro Hwf.
+    induction s as [l|a|l IH] using sexp_ind2; intro Hwf.
     - split; [exact Hwf | reflexivity].
     - split; [exact Hwf | reflexivity].
     - apply wf_sexp_list in Hwf.
-      assert (forall sep, sep = [c_sp] ->
-                wf_items false (List.map (fun y => (sep, canon y)) l)
-                /\ List.map (fun p => strip (snd p)) (List.map (fun y => (sep, canon y)) l) = l) as Htl.
-      { intros sep Hsep. induction H as [|x tl Hx Htl IH]; [split; reflexivity|].
-        inversion Hwf; subst. destruct (Hx H1) as [Hw Hs]. destruct (IH H2) as [Hw' Hs'].
-        split.
-        - simpl. repeat split; try assumption. subst sep. discriminate.
-        - simpl. rewrite Hs, Hs'. reflexivity. }
+      assert (forall l', Forall (fun s => wf_sexp s -> wf_l (canon s) /\ strip (canon s) = s) l' ->
+                Forall wf_sexp l' ->
+                wf_items false (List.map (fun y => ([c_sp], canon y)) l')
+                /\ List.map (fun p => strip (snd p)) (List.map (fun y => ([c_sp], canon y)) l') = l') as Htl.
+      { induction 1 as [|y tl' Hy _ IHtl]; intro Hw; [split; reflexivity|].
+        inversion Hw as [|? ? Hwy Hwtl]; subst. destruct (Hy Hwy) as [A B]. destruct (IHtl Hwtl) as [C D].
+        split; simpl; [repeat split; try assumption; discriminate | rewrite B, D; reflexivity]. }
       simpl canon. destruct l as [|x tl].
       + split; [apply wf_l_list; split; reflexivity | reflexivity].
-      + inversion H; subst. inversion Hwf; subst.
-        destruct (H2 H4) as [Hw Hs]. destruct (Htl [c_sp] eq_refl) as [_ _].
-        assert (wf_items false (List.map (fun y => ([c_sp], canon y)) tl)
-                /\ List.map (fun p => strip (snd p)) (List.map (fun y => ([c_sp], canon y)) tl) = tl) as [Hw' Hs'].
-        { clear Htl. induction H3 as [|y tl' Hy Htl' IH]; [split; reflexivity|].
-          inversion H5; subst. destruct (Hy H6) as [A B]. destruct (IH H7) as [C D].
-          split; simpl; [repeat split; try assumption; discriminate | rewrite B, D; reflexivity]. }
-        split.
-        * apply wf_l_list. split; [reflexivity|]. simpl. repeat split; try assumption.
-        * simpl. rewrite Hs. f_equal. f_equal. exact Hs'.
+      + inversion IH as [|? ? Hx Htl']; subst. inversion Hwf as [|? ? Hwx Hwtl]; subst.
+        destruct (Hx Hwx) as [A B]. destruct (Htl tl Htl' Hwtl) as [C D]. split.
+        * apply wf_l_list. split; [reflexivity|]. simpl. repeat split; assumption.
+        * simpl. rewrite B. f_equal. f_equal. exact D.
   Qed.
 
   (** c15_sexp_roundtrip: every well-formed tree prints (canonically) to a text that reads back
@@ -570,6 +559,53 @@ Section WithOracle.
     rewrite (read_sexp_text _ Hw). rewrite Hs. reflexivity.
   Qed.
 
+  (** non-vacuity of [wf_atom]: every atom the lexer itself produces is well-formed *)
+  Lemma skip_ws_head : forall s inc c tl, skip_ws inc s = c :: tl -> is_ws c = false /\ c <> c_semi.
+  Proof.
+    induction s as [|d s IH]; intros inc c tl H; simpl in H; [discriminate|].
+    destruct (d =? c_semi) eqn:E1; [apply (IH _ _ _ H)|].
+    destruct (d =? c_nl) eqn:E2; [apply (IH _ _ _ H)|].
+    destruct (is_ws d) eqn:E3; [apply (IH _ _ _ H)|].
+    destruct inc; [apply (IH _ _ _ H)|].
+    inversion H; subst. split; [assumption | apply N.eqb_neq; assumption].
+  Qed.
+  Lemma span_other_tokchars : forall s a r, span_other s = (a, r) -> tokchars a.
+  Proof.
+    induction s as [|c s IH]; intros a r H; simpl in H.
+    - inversion H; reflexivity.
+    - destruct (is_delim c) eqn:E; [inversion H; reflexivity|].
+      destruct (span_other s) as [a' r'] eqn:E'. inversion H; subst.
+      unfold tokchars. simpl. rewrite E. simpl. apply (IH a' _ eq_refl).
+  Qed.
+  Theorem lexer_atoms_wf : forall s x r a,
+    next_token s = POk (TOther x, r) -> classify x = SAtom a -> wf_atom a.
+  Proof.
+    intros s x r a Hn Hc. unfold next_token in Hn.
+    destruct (skip_ws false s) as [|c tl] eqn:Es; [discriminate|].
+    destruct (skip_ws_head _ _ _ _ Es) as [Hw Hs].
+    destruct (c =? c_lp) eqn:E1; [discriminate|].
+    destruct (c =? c_rp) eqn:E2; [discriminate|].
+    destruct (c =? c_quote) eqn:E3.
+    { destruct (lex_string false tl) as [[y r']|e|]; discriminate. }
+    destruct (span_other tl) as [b r'] eqn:Eb. injection Hn as Hx Hr. subst x.
+    assert (tok_ok (c :: b)) as Ht.
+    { split; [discriminate|]. split.
+      - unfold tokchars. simpl. apply andb_true_iff. split; [|apply (span_other_tokchars _ _ _ Eb)].
+        apply negb_true_iff. unfold is_delim. rewrite Hw, E1, E2.
+        apply N.eqb_neq in Hs. rewrite Hs. reflexivity.
+      - simpl. apply N.eqb_neq. assumption. }
+    assert (a = c :: b) as ->.
+    { unfold Sexp.classify in Hc.
+      destruct (str_eqb (c :: b) k_true); [discriminate|].
+      destruct (str_eqb (c :: b) k_false); [discriminate|].
+      destruct (parse_i64 (c :: b)); [discriminate|].
+      destruct (str_eqb (c :: b) k_NaN); [discriminate|].
+      destruct (str_eqb (c :: b) k_inf); [discriminate|].
+      destruct (str_eqb (c :: b) k_ninf); [discriminate|].
+      destruct (parse_f64 (c :: b)) as [[| | |y]|]; inversion Hc; reflexivity. }
+    split; assumption.
+  Qed.
+
   (** c15_lit_roundtrip *)
   Theorem lit_roundtrip : forall l, wf_lit l ->
     read_sexp parse_f64 (print_lit l) = POk (SLit l, []).
@@ -578,3 +614,72 @@ Section WithOracle.
   Proof. reflexivity. Qed.
 
 End WithOracle.
+
+(** * the reader never runs out of the fuel it is given (so [= POk _] statements are not about
+      an artefact of the fuel) *)
+Lemma skip_ws_len : forall s inc, (List.length (skip_ws inc s) <= List.length s)%nat.
+Proof.
+  induction s as [|c s IH]; intro inc; simpl; [lia|].
+  destruct (c =? c_semi); [specialize (IH true); lia|].
+  destruct (c =? c_nl); [specialize (IH false); lia|].
+  destruct (is_ws c); [specialize (IH inc); lia|].
+  destruct inc; [specialize (IH true); lia | simpl; lia].
+Qed.
+Lemma lex_string_len : forall s esc x r, lex_string esc s = POk (x, r) -> (List.length r < List.length s)%nat.
+Proof.
+  induction s as [|c s IH]; intros esc x r H; simpl in H; [discriminate|].
+  destruct esc.
+  - destruct (unescape c); [|discriminate].
+    destruct (lex_string false s) as [[y r']|e|] eqn:E; simpl in H; try discriminate.
+    inversion H; subst. specialize (IH _ _ _ E). simpl. lia.
+  - destruct (c =? c_quote); [inversion H; subst; simpl; lia|].
+    destruct (c =? c_bs).
+    + specialize (IH _ _ _ H). simpl. lia.
+    + destruct (lex_string false s) as [[y r']|e|] eqn:E; simpl in H; try discriminate.
+      inversion H; subst. specialize (IH _ _ _ E). simpl. lia.
+Qed.
+Lemma span_other_len : forall s a r, span_other s = (a, r) -> (List.length r <= List.length s)%nat.
+Proof.
+  induction s as [|c s IH]; intros a r H; simpl in H; [inversion H; simpl; lia|].
+  destruct (is_delim c); [inversion H; subst; simpl; lia|].
+  destruct (span_other s) as [a' r'] eqn:E. inversion H; subst. specialize (IH _ _ eq_refl). simpl. lia.
+Qed.
+Lemma next_token_len : forall s t r, next_token s = POk (t, r) -> (List.length r < List.length s)%nat.
+Proof.
+  intros s t r H. unfold next_token in H. pose proof (skip_ws_len s false) as L0.
+  destruct (skip_ws false s) as [|c tl]; [discriminate|]. simpl in L0.
+  destruct (c =? c_lp); [inversion H; subst; pose proof (skip_ws_len tl false); lia|].
+  destruct (c =? c_rp); [inversion H; subst; pose proof (skip_ws_len tl false); lia|].
+  destruct (c =? c_quote).
+  - destruct (lex_string false tl) as [[y r']|e|] eqn:E; simpl in H; try discriminate.
+    inversion H; subst. pose proof (lex_string_len _ _ _ _ E). pose proof (skip_ws_len r' false). lia.
+  - destruct (span_other tl) as [a r'] eqn:E. inversion H; subst.
+    pose proof (span_other_len _ _ _ E). pose proof (skip_ws_len r' false). lia.
+Qed.
+
+Theorem read_loop_fuel : forall parse_f64 fuel stack s, (List.length s < fuel)%nat ->
+  read_loop parse_f64 fuel stack s <> PFuel.
+Proof.
+  intros p fuel. induction fuel as [|f IH]; intros stack s Hlen; [lia|].
+  simpl. destruct (next_token s) as [[tok rest]|e|] eqn:E; try discriminate.
+  - pose proof (next_token_len _ _ _ E) as L. assert (List.length rest < f)%nat as L' by lia.
+    destruct tok.
+    + apply IH; assumption.
+    + destruct stack as [|l st]; [discriminate|]. destruct st; [discriminate | apply IH; assumption].
+    + destruct stack; [discriminate | apply IH; assumption].
+    + destruct stack; [discriminate | apply IH; assumption].
+  - unfold next_token in E. destruct (skip_ws false s) as [|c tl]; [discriminate|].
+    destruct (c =? c_lp); [discriminate|]. destruct (c =? c_rp); [discriminate|].
+    destruct (c =? c_quote).
+    + exfalso. assert (forall s esc, lex_string esc s <> PFuel) as Hl.
+      { induction s0 as [|d s0 IHs]; intro esc; simpl; [discriminate|].
+        destruct esc.
+        - destruct (unescape d); [|discriminate].
+          specialize (IHs false). destruct (lex_string false s0) as [[y r']|e'|]; simpl; try discriminate. congruence.
+        - destruct (d =? c_quote); [discriminate|]. destruct (d =? c_bs); [apply IHs|].
+          specialize (IHs false). destruct (lex_string false s0) as [[y r']|e'|]; simpl; try discriminate. congruence. }
+      specialize (Hl tl false). destruct (lex_string false tl) as [[y r']|e'|]; simpl in E; try discriminate. congruence.
+    + destruct (span_other tl); discriminate.
+Qed.
+Corollary read_sexp_total : forall parse_f64 s, read_sexp parse_f64 s <> PFuel.
+Proof. intros. unfold read_sexp. apply read_loop_fuel. lia. Qed.
